@@ -314,6 +314,14 @@ def check_d3(res, canon, f):
             t = stmt.target
             sink = canon.c(t.value if isinstance(t, ast.Subscript) else t, fr)
         what = '%s() in `%s`' % (hit, short(ast.unparse(stmt), 70) if stmt is not None else '?')
+        if isinstance(stmt, ast.Assign) and len(stmt.targets) == 1 and isinstance(stmt.targets[0], ast.Name) \
+                and not (f.qual == 'Simulation._compose_hdf5_output' and sink == 'ts'):
+            # held in a local: every use of the local decides
+            bad_use = _local_clock_uses(f, canon, fr, stmt.targets[0].id, set())
+            if bad_use is None:
+                res.ok('C10.D3', f, n, what, 'held in local %s, which flows only into the timing sinks' % stmt.targets[0].id)
+                continue
+            sink = '%s (then `%s`)' % (stmt.targets[0].id, short(ast.unparse(bad_use), 60))
         if sink in CLOCK_SINKS:
             res.ok('C10.D3', f, n, what, 'flows into %s: %s' % (sink, CLOCK_SINKS[sink]))
         elif f.qual == 'Simulation._compose_hdf5_output' and sink == 'ts':
@@ -322,6 +330,42 @@ def check_d3(res, canon, f):
             res.bad('C10.D3', f, n, what,
                     '%s() flows into %s, which is not one of the excluded timing sinks: an output '
                     'may differ between runs' % (hit, sink or 'an expression'))
+
+
+def _local_clock_uses(f, canon, fr, name, seen):
+    """first statement through which a wall-clock value held in local `name` reaches something
+    other than an excluded timing sink (None: it does not)"""
+    if name in seen:
+        return None
+    seen.add(name)
+    used = False
+    for s in walk_no_nested(f.node):
+        if not isinstance(s, ast.stmt) or isinstance(s, (ast.If, ast.For, ast.While, ast.With, ast.Try, ast.FunctionDef)):
+            if isinstance(s, (ast.If, ast.While)) and any(
+                    isinstance(x, ast.Name) and x.id == name for x in ast.walk(s.test)):
+                return s          # decides control flow
+            continue
+        if not any(isinstance(x, ast.Name) and x.id == name and isinstance(x.ctx, ast.Load) for x in ast.walk(s)):
+            continue
+        used = True
+        if isinstance(s, (ast.Assign, ast.AugAssign)):
+            t = s.targets[0] if isinstance(s, ast.Assign) and len(s.targets) == 1 else getattr(s, 'target', None)
+            if t is None:
+                return s
+            if isinstance(t, ast.Name):
+                r = _local_clock_uses(f, canon, fr, t.id, seen)
+                if r is not None:
+                    return r
+                continue
+            loc = canon.c(t.value if isinstance(t, ast.Subscript) else t, fr)
+            if loc in CLOCK_SINKS:
+                continue
+            return s
+        if isinstance(s, ast.Expr) and isinstance(s.value, ast.Call) and isinstance(s.value.func, ast.Attribute) \
+                and isinstance(s.value.func.value, ast.Name) and s.value.func.value.id.lower() in ('logger', 'logging', 'log'):
+            continue
+        return s
+    return None
 
 
 def _enclosing_stmt(f, node):
